@@ -1,4 +1,4 @@
-"""C15 -- scopes and name tables agree with Python's symbol table (VGC rules R15.1-R15.19)."""
+"""C15 -- scopes and name tables agree with Python's symbol table (VGC rules R15.1-R15.20)."""
 from __future__ import annotations
 
 import ast
@@ -23,6 +23,7 @@ EXPLANATION = (
 )
 EXPLANATION += " R15.17: a `:=` target inside a comprehension is not local to the comprehension; the containing scope's visitor collects it."
 EXPLANATION += " R15.18: in the scope visitors every path through the handler of a def / class stores the definition under its own name."
+EXPLANATION += " R15.20: in the handlers of the scope visitors a statement list of the node (body, orelse, finalbody, handlers, cases) is never read inside a loop over ANOTHER field of the same node: each child statement is visited once, so each nested definition yields one scope."
 EXPLANATION += " R15.19: a nonlocal name is filed under the result of a transitive search of the enclosing scopes (lookup), not of one scope's own table."
 EXPLANATION += " R15.16: the comprehension scope seeds its table from what its parent propagates to nested scopes (nothing for a class body), never from all names of the parent."
 ASSUMPTIONS = [
@@ -91,6 +92,7 @@ def check(ctx, res) -> None:
     comprehension_sees_parent_rule(ctx, res, "R15.16")
     definition_binds_its_name_rule(ctx, res, "R15.18")
     nonlocal_is_searched_outwards_rule(ctx, res, "R15.19")
+    suite_visited_once_rule(ctx, res, "R15.20")
 
 
 def _check_main(ctx, res) -> None:
@@ -779,3 +781,61 @@ def nonlocal_is_searched_outwards_rule(ctx, res, rule: str) -> None:
                 "the search for the binding of a nonlocal name starts in the scope around the function even when that is a CLASS body: in `def outer(): x = 1; class K: x = 'attr'; "
                 "def m(self): nonlocal x` the class attribute is filed under m's `x` -- Rename of outer's `x` leaves `nonlocal x` behind (SyntaxError: no binding for nonlocal "
                 "'x' found), and lookup('x') from m disagrees with the interpreter's symbol table", function=m.qualname)
+
+
+SUITE_FIELDS = ("body", "orelse", "finalbody", "handlers", "cases")
+
+
+def suite_visited_once_rule(ctx, res, rule: str) -> None:
+    """R15.20: the interpreter's symbol table has ONE child table per nested def / class / comprehension.  The scope visitors get
+    theirs by visiting the statements of a compound statement, so each statement list of the node must be visited once: a
+    handler `_X(self, node)` never reads `node.<suite>` inside a `for` over another field of the same node (`for item in
+    node.items: ...; visit(node.body)` visits the body of `with a as x, b as y:` twice and lists every definition in it twice).
+    Read on the handler with its private steps in place, so `self._visit_statements(node.body)` inside the loop counts."""
+    idx = ctx.idx
+    from . import common
+    seen = set()
+    n = 0
+    for q in dict.fromkeys(SCOPE_VISITORS.values()):
+        for cq in idx.mro(q):
+            c = idx.classes.get(cq)
+            if c is None:
+                continue
+            for name, m in c.methods.items():
+                if m.qualname in seen or not (name.startswith("_") and len(m.node.args.args) == 2):
+                    continue
+                seen.add(m.qualname)
+                par = m.node.args.args[1].arg
+                node = common.inlined(idx, m)
+
+                def field_of(e):
+                    return e.attr if isinstance(e, ast.Attribute) and isinstance(e.value, ast.Name) and e.value.id == par else None
+
+                reads = []
+
+                def walk(x, loops):
+                    if isinstance(x, (ast.FunctionDef, ast.AsyncFunctionDef, ast.Lambda)) and x is not node:
+                        return
+                    f = field_of(x)
+                    if f in SUITE_FIELDS:
+                        reads.append((x, f, [g for g in loops if g != f]))
+                    if isinstance(x, (ast.For, ast.AsyncFor)):
+                        walk(x.iter, loops)
+                        inner = loops + [g for g in (field_of(a) for a in ast.walk(x.iter)) if g]
+                        for st in x.body + x.orelse:
+                            walk(st, inner)
+                        return
+                    for ch in ast.iter_child_nodes(x):
+                        walk(ch, loops)
+
+                walk(node, [])
+                if not reads:
+                    continue
+                n += 1
+                bad = [(x, f, outer) for x, f, outer in reads if outer]
+                res.add(rule, f"{m.cls.name}.{name}|suite-visited-once", not bad, f"{m.unit.rel}:{(bad[0][0] if bad else m.node).lineno}",
+                        f"{len(reads)} read(s) of a statement list of the node, none inside a loop over another of its fields" if not bad else
+                        f"`{par}.{bad[0][1]}` is read inside the loop over `{par}.{bad[0][2][0]}`: the statements are visited once per element of that field, and every def, class "
+                        "or comprehension among them is listed as a child scope that many times (`with a as x, b as y:` with a def in its body: two scopes where the interpreter's "
+                        "symbol table has one)", function=m.qualname)
+    res.floor(rule, "handlers that read a statement list of their node", n, 3)
